@@ -91,7 +91,7 @@ def doIndex (l : Line) : Option String := do
   let v ← l.rats? "v"
   if v.length ≠ P.length then some "err"
   else
-    match (List.zip P v).mapM (fun (p, x) => p.index x),
+    match ndIndex P v,
           (List.zip P v).mapM (fun (p, x) => p.indexFloat x) with
     | some i, some f => some s!"ok i={showIntList i} f={showRatList f}"
     | _, _ => some "err"
